@@ -173,6 +173,11 @@ def generate(rng, tier, idx):
     jrows = None
     if join_rows is not None:
         jrows = ([['key', 'jval', 'jtag']] if with_headers else []) + join_rows
+    if policy == 'quoted_rfc' and rng.random() < 0.5:
+        # multi-line quoted fields: a record then spans several physical lines (and several reads)
+        for r in in_rows[(1 if with_headers else 0):]:
+            if len(r) >= 2 and rng.random() < 0.6:
+                r[1] = '"' + r[1] + rng.choice(['\n', '\n\n', '\nmore\n']) + 'tail"'
     sc.update(front=front, shape=name, query=q, enc=enc, policy=policy, delim=',', with_headers=with_headers,
               in_text=workload.to_csv(in_rows, ',', rng.choice(['\n', '\n', '\r\n']), rng.random() < 0.8),
               join_text=(None if jrows is None else workload.to_csv(jrows, ',')),
